@@ -84,9 +84,17 @@ Theorem C16_norace : forall s, reachable s ->
   forall a b, In a (alog s) -> In b (alog s) -> conflict a b = true -> common_lock a b = true.
 Proof. exact norace_lemma. Qed.
 
-(* the constant the retry-later reply carries *)
-Theorem C16_facts : (c_NFSERR_JUKEBOX =? 10008)%Z = true.
-Proof. vm_compute. reflexivity. Qed.
+(* what the model assumes about the source, re-read from /repo on every run (harness/tools/astfacts/x_lts.go):
+   the retry-later status; UpdatePolicyOptions performs policyMu.Lock, defer policyMu.Unlock, policyRWMu.Lock,
+   policy.Store, mu.Lock, the two assignments to rateLimiter, mu.Unlock, policyRWMu.Unlock in this order; HandleCall's
+   first use of policyRWMu is the TryRLock guard that leaves with drainReply; the RUnlock is deferred inside the worker
+   goroutine and not by HandleCall itself; the connection loop calls currentRateLimiter() inside the request loop and
+   never reads the field directly; currentRateLimiter reads the field under mu.RLock *)
+Theorem C16_facts :
+  c_NFSERR_JUKEBOX = 10008%Z /\ f_lts_update_order = [1; 8; 2; 3; 4; 5; 5; 6; 7]%Z /\
+  f_lts_tryrlock_guard = true /\ f_lts_runlock_in_goroutine = true /\
+  f_lts_limiter_per_request = true /\ f_lts_limiter_locked_read = true.
+Proof. repeat split; vm_compute; reflexivity. Qed.
 
 (* ---------- non-vacuity ---------- *)
 Definition pol (ro en : bool) (cfg : option N) : policy := {| p_ro := ro; p_enable := en; p_cfg := cfg; p_squash := 0; p_maxsize := 0; p_secure := false |}.
@@ -142,6 +150,18 @@ Example C16_limiter_window :
   | None => False
   end.
 Proof. vm_compute. eexists. repeat split; reflexivity. Qed.
+
+(* hypothesis of C16_drain_exclusive: the writer holds the lock (after its store, before its swap) *)
+Example C16_exclusive_nontrivial :
+  match run (init (pol false false None) None) [UCall 7 (pol true false None); UMu 7; ULock 7; UAcquire 7; UStore 7] with
+  | Some s => reachable s /\ exists qu, upds s 7 = Some qu /\ u_pc qu = UStored /\ cur s = 1 /\ lim_gen s = 0
+  | None => False
+  end.
+Proof.
+  vm_compute. split.
+  - exists (pol false false None), None, [UCall 7 (pol true false None); UMu 7; ULock 7; UAcquire 7; UStore 7]. vm_compute. reflexivity.
+  - eexists. repeat split; reflexivity.
+Qed.
 
 Print Assumptions C16_atomic.
 Print Assumptions C16_drain.
